@@ -54,14 +54,12 @@ package raft
 // release (C07, C15, C16)
 
 // STUB (outside area leader)
-//@ func isClosed
+// (func isClosed: defined in verif_contracts_membership.go)
 // STUB (outside area leader)
 //@ func (*Raft).isClosed
 //@   requires r.storage != nil
 // STUB (outside area leader)
-//@ func notLeaderError
-//@   requires r.storage != nil
-//@   ensures result0.Lost == lost
+// (func notLeaderError: defined in verif_contracts_membership.go)
 
 // (duplicate of func (transfer).inProgress removed: defined in verif_contracts_repl.go)
 // (duplicate of func (transfer).targetChosen removed: defined in verif_contracts_repl.go)
@@ -147,13 +145,30 @@ package raft
 // ---------------------------------------------------------------------------
 // leader well-formedness, re-entrant stubs, commit (C02, C06)
 
-// LeaderWF implies the membership agent's MbLeaderWF (RaftWF, resolver, transfer.timer, repls non-nil with status.id == key).
+// LeaderWF implies the membership file's MbLeaderWF (RaftWF, resolver, transfer.timer, MbReplsWF: repls non-nil,
+// status.id == key, no replication for the leader itself).
 // (duplicate of pure ReplsOK removed: defined in verif_contracts_fsm.go)
-// entry.gcfgok: the entry's data is the encoding of a configuration (established by (Config).encode: C18 round trip)
+// ghost description of the configuration encoded in an entry (established by (Config).encode, read back by the
+// (*Config).decode view: C18 round trip):
+//   entry.gcfgok    : the entry's data is the encoding of a configuration
+//   entry.gcgood    : that configuration satisfies CfgGood (anchor voter, keys == ids, at least one voter)
+//   entry.gcself[id]: that configuration satisfies SelfOK(., id) (node id is not being promoted, valid action)
 //@ ghost field entry.gcfgok bool
-//@ pure CfgEntryOK(e *entry) bool = e.typ == entryConfig ==> e.gcfgok
-//@ pure AllCfgOK() bool = forall(e, CfgEntryOK(e))
-//@ pure LeaderWF(l *leader) bool = l.Raft != nil && NodeInv(l.Raft) && l.transfer.timer != nil && l.transfer.newTermTimer != nil && l.timer != nil && ReplsOK(l) && AllNE() && AllCfgOK() && l.log.gprev <= l.removeLTE && l.removeLTE <= l.lastLogIndex && l.lastLogIndex < 18446744073709551615 && MajorityPre(l)
+//@ ghost field entry.gcgood bool
+//@ ghost field entry.gcself map[uint64]bool
+//@ pure SelfOK(c Config, id uint64) bool = c.Nodes[id].Action != Promote && c.Nodes[id].Action <= ForceRemove
+//@ pure CfgGood(c Config) bool = Anchor(c) && KeysOK(c) && HasVoter(c)
+//@ pure CfgEntryOK(e *entry, id uint64) bool = e.typ == entryConfig ==> e.gcfgok && e.gcgood && e.gcself[id]
+//@ pure AllCfgOK(id uint64) bool = forall(e, CfgEntryOK(e, id))
+// LeaderBase: everything that also holds in the middle of (*leader).changeConfig (Latest already replaced,
+//             replications not yet adjusted, numVoters stale)
+// LeaderWF0 : LeaderBase + every other node of Latest has a replication
+// LeaderWF  : LeaderWF0 + the cached node / numVoters agree with Latest (needed by majorityMatchIndex)
+// The configuration invariant (Anchor, SelfOK, KeyIsID, NumVoters >= 1 of Latest) is what checkConfigActions /
+// changeConfig require of the configuration they are given.
+//@ pure LeaderBase(l *leader) bool = l.Raft != nil && NodeInv(l.Raft) && PoolsInv(l.Raft) && l.transfer.timer != nil && l.transfer.newTermTimer != nil && l.timer != nil && MbReplsWF(l) && AllNE() && AllCfgOK(l.nid) && l.log.gprev <= l.removeLTE && l.removeLTE <= l.lastLogIndex && l.lastLogIndex < 18446744073709551615 && KeyIsID(l.configs.Latest) && NumVoters(l.configs.Latest) >= 1 && MatchBound(l) && Anchor(l.configs.Latest) && SelfOK(l.configs.Latest, l.nid)
+//@ pure LeaderWF0(l *leader) bool = LeaderBase(l) && ReplsCover(l)
+//@ pure LeaderWF(l *leader) bool = LeaderWF0(l) && LeaderCache(l)
 
 // STUB: (*leader).majorityMatchIndex is being proved separately; only what onMajorityCommit needs
 // (duplicate of func (*leader).majorityMatchIndex removed: defined in verif_contracts_majority.go)
@@ -161,25 +176,12 @@ package raft
 // STUB (outside area leader): re-entrant (it may call storeEntry -> onMajorityCommit -> setCommitIndex again).
 // The ensures clauses are the RELY condition that every re-entrant leader step guarantees; they are proved
 // for onMajorityCommit / setCommitIndex / storeEntry below and must be proved for checkConfigActions by its owner.
-//@ func (*leader).checkConfigActions
-//@   trusted
-//@   nilable t
-//@   requires LeaderWF(l)
-//@   modifies *
-//@   maypanic OpError
-//@   ensures LeaderWF(l) && l.Raft == old(l.Raft) && l.storage == old(l.storage) && l.startIndex == old(l.startIndex) && l.term == old(l.term) && l.nid == old(l.nid)
-//@   ensures l.commitIndex >= old(l.commitIndex) && (l.commitIndex != old(l.commitIndex) ==> l.commitIndex >= l.startIndex) && l.lastLogIndex >= old(l.lastLogIndex)
-//@   ensures [C02.own-term-entries] forall(i, old(l.lastLogIndex) < i && i <= l.lastLogIndex ==> l.gterm[i] == l.term)
-//@   ensures forall(i, i <= old(l.lastLogIndex) ==> l.gterm[i] == old(l.gterm[i]) && l.gtyp[i] == old(l.gtyp[i]))
-//@   ensures old(l.flushed >= l.commitIndex) ==> l.flushed >= l.commitIndex
+// (func (*leader).checkConfigActions: defined in verif_contracts_membership.go)
 
-//@ func (Configs).IsStable
-//@   inline
+// (func (Configs).IsStable: defined in verif_contracts_membership.go)
 //@ pure CfgStable(c Config) bool = forall(k, has(c.Nodes, k) ==> c.Nodes[k].Action == None)
 // STUB (outside area leader), verified
-//@ func (Config).isStable
-//@   ensures result0 == CfgStable(c)
-//@   loop 1 invariant forall(k, visited(k) ==> c.Nodes[k].Action == None) && subset(visitedset(), keys(c.Nodes))
+// (func (Config).isStable: defined in verif_contracts_membership.go)
 
 // (duplicate of func (*leader).notifyFlr removed: defined in verif_contracts_fsm.go)
 
@@ -190,7 +192,7 @@ package raft
 //@ func (*leader).setCommitIndex
 //@   requires LeaderWF(l) && l.flushed >= l.commitIndex
 //@   requires [C02.leader-commit-rule] l.commitIndex < index && index <= l.lastLogIndex
-//@   modifies *
+//@   modifies l.node, l.numVoters, l.neHead, l.neTail, l.waitStable, l.state, l.leader, l.commitIndex, l.storage.lastLogIndex, l.storage.lastLogTerm, l.storage.gterm, l.storage.gtyp, l.storage.flushed, l.storage.configs, Log.glast, contents(l.repls), replication.status, round.Ordinal, round.Start, round.End, round.LastIndex, newEntry.next, entry.index, entry.term, task.result, task.greplied, contents(l.resolver.addrs), contents(l.connPools), closeRequested
 //@   maypanic OpError
 //@   ensures [C06.flush-before-advance] l.flushed >= l.commitIndex
 //@   crash_inv [C06.flush-before-advance] l.flushed >= l.commitIndex
@@ -198,54 +200,45 @@ package raft
 //@   ensures [C02.commit-set] old(!(CommitsCfg(l, index) && !CfgStable(l.configs.Latest))) ==> l.commitIndex == index && l.lastLogIndex == old(l.lastLogIndex) && l.configs.Latest == old(l.configs.Latest) && forall(x, NextOf(x) == old(NextOf(x))) && l.neHead == old(l.neHead) && l.neTail == old(l.neTail)
 //@   ensures [C08.stable-replies-waiters] old(CommitsCfg(l, index) && CfgStable(l.configs.Latest) && WSDistinct(l)) ==> l.waitStable == nil && forall(i, old(InWS(l, i)) && old(WSTask(l, i)) != nil ==> GRep(old(WSTask(l, i))) == old(GRep(WSTask(l, i))) + 1)
 //@   ensures [C08.unstable-keeps-waiters] old(!CommitsCfg(l, index)) ==> l.waitStable == old(l.waitStable) && forall(t, GRep(t) == old(GRep(t)))
+//@   ensures [C08.configs-change-only-forward] l.configs.Latest.Index >= old(l.configs.Latest.Index) && (old(CfgCommitted(l.storage)) && l.configs.Latest.Index == old(l.configs.Latest.Index) ==> l.configs.Latest == old(l.configs.Latest) && l.configs.Committed == old(l.configs.Committed))
 //@   ensures LeaderWF(l) && l.Raft == old(l.Raft) && l.storage == old(l.storage) && l.startIndex == old(l.startIndex) && l.term == old(l.term) && l.nid == old(l.nid)
 //@   ensures l.commitIndex >= index && l.lastLogIndex >= old(l.lastLogIndex)
 //@   ensures [C02.own-term-entries] forall(i, old(l.lastLogIndex) < i && i <= l.lastLogIndex ==> l.gterm[i] == l.term)
 //@   ensures forall(i, i <= old(l.lastLogIndex) ==> l.gterm[i] == old(l.gterm[i]) && l.gtyp[i] == old(l.gtyp[i]))
+//@   ensures l.repls == old(l.repls) && forall(p, ReplId(p) == old(ReplId(p)))
 //@   loop 1 invariant -1 <= rangeindex && rangeindex < len(l.waitStable)
 //@   loop 1 invariant old(WSDistinct(l)) ==> forall(i, InWS(l, i) && WSTask(l, i) != nil ==> (i <= base(l.waitStable) + rangeindex ==> GRep(WSTask(l, i)) == old(GRep(WSTask(l, i))) + 1) && (i > base(l.waitStable) + rangeindex ==> GRep(WSTask(l, i)) == old(GRep(WSTask(l, i)))))
 
 //@ func (*leader).onMajorityCommit
 //@   requires LeaderWF(l) && l.flushed >= l.commitIndex
-//@   modifies *
+//@   modifies l.node, l.numVoters, l.neHead, l.neTail, l.waitStable, l.state, l.leader, l.commitIndex, l.storage.lastLogIndex, l.storage.lastLogTerm, l.storage.gterm, l.storage.gtyp, l.storage.flushed, l.storage.configs, Log.glast, contents(l.repls), replication.status, round.Ordinal, round.Start, round.End, round.LastIndex, newEntry.next, entry.index, entry.term, task.result, task.greplied, contents(l.resolver.addrs), contents(l.connPools), closeRequested
 //@   maypanic OpError
 //@   ensures [C02.leader-commit-rule] l.commitIndex != old(l.commitIndex) ==> l.commitIndex > old(l.commitIndex) && l.commitIndex >= l.startIndex && l.commitIndex <= l.lastLogIndex
 //@   ensures [C06.flush-before-advance] l.flushed >= l.commitIndex
+//@   ensures [C08.configs-change-only-forward] l.configs.Latest.Index >= old(l.configs.Latest.Index) && (old(CfgCommitted(l.storage)) && l.configs.Latest.Index == old(l.configs.Latest.Index) ==> l.configs.Latest == old(l.configs.Latest) && l.configs.Committed == old(l.configs.Committed))
 //@   ensures LeaderWF(l) && l.Raft == old(l.Raft) && l.storage == old(l.storage) && l.startIndex == old(l.startIndex) && l.term == old(l.term) && l.nid == old(l.nid)
 //@   ensures l.commitIndex >= old(l.commitIndex) && l.lastLogIndex >= old(l.lastLogIndex)
 //@   ensures [C02.own-term-entries] forall(i, old(l.lastLogIndex) < i && i <= l.lastLogIndex ==> l.gterm[i] == l.term)
 //@   ensures forall(i, i <= old(l.lastLogIndex) ==> l.gterm[i] == old(l.gterm[i]) && l.gtyp[i] == old(l.gtyp[i]))
+//@   ensures l.repls == old(l.repls) && forall(p, ReplId(p) == old(ReplId(p)))
 
 
 // ---------------------------------------------------------------------------
 // storeEntry (C07, C11, C04, C02, C06)
 
 // STUB (outside area leader), verified
-//@ func (*round).begin
-//@   inline
-//@ func (*round).finished
-//@   inline
-//@ func (*leader).beginFinishedRounds
-//@   requires l.Raft != nil && l.storage != nil && ReplsOK(l)
-//@   modifies round.Ordinal, round.Start, round.LastIndex
-//@   loop 1 invariant ReplsOK(l)
+// (func (*round).begin: defined in verif_contracts_membership.go)
+// (func (*round).finished: defined in verif_contracts_membership.go)
+// (func (*leader).beginFinishedRounds: defined in verif_contracts_membership.go)
 
 // STUB (outside area leader): same rely condition as checkConfigActions (it calls it)
-//@ func (*leader).changeConfig
-//@   trusted
-//@   requires LeaderWF(l) && config.Index > l.configs.Latest.Index
-//@   modifies *
-//@   maypanic OpError
-//@   ensures LeaderWF(l) && l.Raft == old(l.Raft) && l.storage == old(l.storage) && l.startIndex == old(l.startIndex) && l.term == old(l.term) && l.nid == old(l.nid)
-//@   ensures l.commitIndex >= old(l.commitIndex) && (l.commitIndex != old(l.commitIndex) ==> l.commitIndex >= l.startIndex) && l.lastLogIndex >= old(l.lastLogIndex)
-//@   ensures forall(i, i <= old(l.lastLogIndex) ==> l.gterm[i] == old(l.gterm[i]) && l.gtyp[i] == old(l.gtyp[i]))
-//@   ensures forall(i, old(l.lastLogIndex) < i && i <= l.lastLogIndex ==> l.gterm[i] == l.term)
-//@   ensures old(l.flushed >= l.commitIndex) ==> l.flushed >= l.commitIndex
+// (func (*leader).changeConfig: defined in verif_contracts_membership.go)
 
 // trusted views used only inside storeEntry:
 //  - appendEntry: the base contract plus [T-storage.index-space]: the index space is never exhausted
 //    (every entry occupies at least one byte of storage), needed because the batch length is unbounded
-//  - (*Config).decode: the base contract plus [C18.config-roundtrip]: an entry marked gcfgok decodes
+//  - (*Config).decode: the base contract plus [C18.config-roundtrip]: an entry marked gcfgok decodes, and the
+//    decoded configuration has the properties recorded in the ghost fields gcgood / gcself by (Config).encode
 //@ view (*storage).appendEntry at (*leader).storeEntry
 //@   requires [C04.append-contiguous] e.index == s.lastLogIndex + 1
 //@   requires s.log != nil
@@ -259,6 +252,8 @@ package raft
 //@   modifies all(c)
 //@   ensures result0 == nil ==> c.Index == e.index && c.Term == e.term
 //@   ensures [C18.config-roundtrip] e.gcfgok ==> result0 == nil
+//@   ensures [C18.config-roundtrip] e.gcfgok && e.gcgood && result0 == nil ==> CfgGood(*c)
+//@   ensures [C18.config-roundtrip] e.gcfgok && result0 == nil ==> forall(k, e.gcself[k] ==> SelfOK(*c, k))
 
 // hypothetical labelling of the submitted chain ne0 -> ... : set leader.gch, position newEntry.gcpos,
 // newEntry.gnlog = number of log entries strictly before the element, leader.gchn = length,
@@ -289,7 +284,7 @@ package raft
 
 //@ func (*leader).storeEntry params(l, ne0)
 //@   requires LeaderWF(l) && l.flushed >= l.commitIndex
-//@   modifies *
+//@   modifies l.node, l.numVoters, l.neHead, l.neTail, l.waitStable, l.state, l.leader, l.commitIndex, l.storage.lastLogIndex, l.storage.lastLogTerm, l.storage.gterm, l.storage.gtyp, l.storage.flushed, l.storage.configs, Log.glast, contents(l.repls), replication.status, round.Ordinal, round.Start, round.End, round.LastIndex, newEntry.next, entry.index, entry.term, task.result, task.greplied, contents(l.resolver.addrs), contents(l.connPools), closeRequested
 //@   maypanic OpError
 //@   props C15
 //@   ensures [C07.reject-during-transfer] old(HY(l, ne0) && l.transfer.timer.active) ==> l.lastLogIndex == old(l.lastLogIndex) && forall(i, l.gterm[i] == old(l.gterm[i]) && l.gtyp[i] == old(l.gtyp[i])) && forall(x, old(l.gch[x]) && TaskOf(x) != nil ==> GRep(TaskOf(x)) == old(GRep(TaskOf(x))) + 1 && InProg(TaskOf(x)))
@@ -301,9 +296,13 @@ package raft
 //@   ensures [C06.fast-path-single-voter] old(HY(l, ne0) && !Fast(l)) ==> l.commitIndex == old(l.commitIndex)
 //@   ensures [C04.leader-append-only] l.lastLogIndex >= old(l.lastLogIndex) && forall(i, i <= old(l.lastLogIndex) ==> l.gterm[i] == old(l.gterm[i]) && l.gtyp[i] == old(l.gtyp[i]))
 //@   ensures [C02.own-term-entries] forall(i, old(l.lastLogIndex) < i && i <= l.lastLogIndex ==> l.gterm[i] == l.term)
+//@   ensures [C08.configs-change-only-forward] l.configs.Latest.Index >= old(l.configs.Latest.Index) && (old(CfgCommitted(l.storage)) && l.configs.Latest.Index == old(l.configs.Latest.Index) ==> l.configs.Latest == old(l.configs.Latest) && l.configs.Committed == old(l.configs.Committed))
 //@   ensures LeaderWF(l) && l.Raft == old(l.Raft) && l.storage == old(l.storage) && l.startIndex == old(l.startIndex) && l.term == old(l.term) && l.nid == old(l.nid)
 //@   ensures l.commitIndex >= old(l.commitIndex) && (l.commitIndex != old(l.commitIndex) ==> l.commitIndex >= l.startIndex)
 //@   ensures [C06.flush-before-advance] l.flushed >= l.commitIndex
+//@   ensures l.repls == old(l.repls) && forall(p, ReplId(p) == old(ReplId(p)))
+//@   loop 1 invariant l.repls == old(l.repls) && forall(p, ReplId(p) == old(ReplId(p)))
+//@   loop 1 invariant l.configs.Latest.Index >= old(l.configs.Latest.Index) && (l.configs.Latest.Index == old(l.configs.Latest.Index) ==> l.configs.Latest == old(l.configs.Latest) && l.configs.Committed == old(l.configs.Committed))
 //@   loop 1 invariant LeaderWF(l) && l.Raft == old(l.Raft) && l.storage == old(l.storage) && l.startIndex == old(l.startIndex) && l.term == old(l.term) && l.nid == old(l.nid)
 //@   loop 1 invariant l.commitIndex >= old(l.commitIndex) && (l.commitIndex != old(l.commitIndex) ==> l.commitIndex >= l.startIndex) && l.flushed >= l.commitIndex
 //@   loop 1 invariant l.lastLogIndex >= old(l.lastLogIndex) && lastIndex == old(l.lastLogIndex) && forall(i, i <= old(l.lastLogIndex) ==> l.gterm[i] == old(l.gterm[i]) && l.gtyp[i] == old(l.gtyp[i]))
@@ -331,24 +330,21 @@ package raft
 //@ func newRandTime
 //@   trusted
 
-//@ func (*leader).addReplication
-//@   requires l.Raft != nil && l.storage != nil && PoolsInv(l.Raft) && l.repls != nil && l.log != nil && l.log.glast == l.lastLogIndex
-//@   requires [C15.no-self-replication] n.ID != l.nid
-//@   requires [C15.view-bounds] l.removeLTE <= l.lastLogIndex
-//@   modifies contents(l.repls), contents(l.connPools)
-//@   props C15
-//@   ensures has(l.repls, n.ID) && l.repls[n.ID] != nil && isfresh(l.repls[n.ID]) && l.repls[n.ID].status.id == n.ID && l.repls[n.ID].status.matchIndex == 0 && l.repls[n.ID].status.node == n && !l.repls[n.ID].status.removed
-//@   ensures forall(k, k != n.ID ==> has(l.repls, k) == old(has(l.repls, k)) && l.repls[k] == old(l.repls[k]))
-//@   ensures PoolsInv(l.Raft)
+// (func (*leader).addReplication: defined in verif_contracts_membership.go)
 
 //@ pure CfgIDs(c Config) bool = forall(k, has(c.Nodes, k) ==> c.Nodes[k].ID == k)
 
 //@ func (*leader).init
-//@   requires l.Raft != nil && NodeInv(l.Raft) && PoolsInv(l.Raft) && l.transfer.timer != nil && l.transfer.newTermTimer != nil && l.timer != nil && ReplsOK(l) && AllNE() && AllCfgOK()
+//@   requires l.Raft != nil && NodeInv(l.Raft) && PoolsInv(l.Raft) && l.transfer.timer != nil && l.transfer.newTermTimer != nil && l.timer != nil && ReplsOK(l) && AllNE() && AllCfgOK(l.nid)
 //@   requires l.lastLogIndex < 18446744073709551615 && l.flushed >= l.commitIndex && CfgIDs(l.configs.Latest)
 //@   requires l.repls != nil && KeyIsID(l.configs.Latest) && NumVoters(l.configs.Latest) >= 1 && forall(k, !has(l.repls, k))
 //@   requires [C15.leader-is-self] l.leader == l.nid
-//@   modifies *
+// protocol invariants of the configuration the node was elected with (established by bootstrap / onChangeConfig /
+// the config actions on whichever leader created it; the new leader cannot re-check them)
+//@   requires [C08.anchor] Anchor(l.configs.Latest)
+//@   requires [C11.self-not-promoted] SelfOK(l.configs.Latest, l.nid)
+//@   modifies l.startIndex, l.replUpdateCh, l.removeLTE
+//@   modifies l.node, l.numVoters, l.neHead, l.neTail, l.waitStable, l.state, l.leader, l.commitIndex, l.storage.lastLogIndex, l.storage.lastLogTerm, l.storage.gterm, l.storage.gtyp, l.storage.flushed, l.storage.configs, Log.glast, contents(l.repls), replication.status, round.Ordinal, round.Start, round.End, round.LastIndex, newEntry.next, entry.index, entry.term, task.result, task.greplied, contents(l.resolver.addrs), contents(l.connPools), closeRequested
 //@   maypanic OpError
 //@   props C15
 //@   ensures [C02.start-index] l.startIndex == old(l.lastLogIndex) + 1 && l.term == old(l.term)
@@ -357,7 +353,7 @@ package raft
 //@   ensures [C02.leader-commit-rule] l.commitIndex >= old(l.commitIndex) && (l.commitIndex != old(l.commitIndex) ==> l.commitIndex >= l.startIndex)
 //@   ensures [C06.flush-before-advance] l.flushed >= l.commitIndex
 //@   ensures LeaderWF(l)
-//@   loop 1 invariant l.Raft != nil && NodeInv(l.Raft) && PoolsInv(l.Raft) && ReplsOK(l) && l.removeLTE <= l.lastLogIndex && l.repls != nil && LeaderCache(l) && subset(visitedset(), keys(l.configs.Latest.Nodes)) && forall(k, visited(k) && k != l.nid ==> has(l.repls, k) && l.repls[k] != nil) && forall(k, has(l.repls, k) ==> l.repls[k] != nil && l.repls[k].status.matchIndex == 0)
+//@   loop 1 invariant LeaderBase(l) && LeaderCache(l) && subset(visitedset(), keys(l.configs.Latest.Nodes)) && forall(k, visited(k) && k != l.nid ==> has(l.repls, k) && l.repls[k] != nil) && forall(k, has(l.repls, k) ==> l.repls[k] != nil && l.repls[k].status.matchIndex == 0)
 
 //@ func (*leader).onTimeout
 //@   requires l.Raft != nil && RaftWF(l.Raft) && l.timer != nil && ReplsCover(l)
